@@ -38,6 +38,8 @@ def run(tier):
             refine.accumulator_init_rule(chk, 'C13.D1', prog, p, cfgname)
         if n < 400 or n2 < 4 * 12:
             raise AnalysisBroken('C13: %d driver leaves, %d gsrfs leaves' % (n, n2))
+        from ..rules import kernels as _k
+        _k.leading_dimension_agreement(chk, 'C13.ld', prog, [q + 'gsrfs' for q in 'sdcz'], cfgname, floor=8)
         refine.matvec_pairing_rule(chk, 'C13.pair', prog, [q + 'gsrfs' for q in 'sdcz'] + ['sp_%sgemv' % q for q in 'sdcz'], cfgname, floor=8)
         if cfgname == 'tested':
             r9_sibling.run(chk, prog, 'C13.D4', {p + u for p in 'dz' for u in R9_UNITS}, cfgname)
